@@ -461,16 +461,23 @@ WB_LONG main(WB_LONG argc, WB_TINY **argv)
                 fprintf(stderr, "Failed to open output file: %s\n", output);
             }
             else {
-                /* Write to Output File */
-                if (fwrite(xml, sizeof(WB_UTINY), xml_len, output_file) < xml_len)
+                /* Write to Output File (buffered data can still be lost by the flush or the close) */
+                int write_failed = (fwrite(xml, sizeof(WB_UTINY), xml_len, output_file) < xml_len);
+
+                if (output_file != stdout) {
+                    if (fclose(output_file) != 0)
+                        write_failed = 1;
+                }
+                else if (fflush(stdout) != 0) {
+                    write_failed = 1;
+                }
+
+                if (write_failed)
                     fprintf(stderr, "Error while writing to file: %s\n", output);
                 /*
                 else
                     fprintf(stderr, "Written %u bytes to file: %s\n", xml_len, output);
                 */
-
-                if (output_file != stdout)
-                    fclose(output_file);
             }
         }
 
